@@ -647,7 +647,7 @@ static void DecodeEmulOneToTwo(Word Code) {
 
         /* transform 0(Rn) as Dest back to @Rn as Src: */
 
-        else if ((SrcParts.Mode == eModeRegDisp) && (DestParts.Val == 0)) {
+        else if ((SrcParts.Mode == eModeRegDisp) && (DestParts.Val == 0) && !DestParts.WasAbs) {
             SrcParts.Mode = eModeIReg;
             SrcParts.Cnt  = 0;
         }
@@ -747,7 +747,7 @@ static void DecodeEmulOneToTwoX(Word Code) {
 
         /* transform 0(Rn) as Dest back to @Rn as Src: */
 
-        else if ((SrcParts.Mode == eModeRegDisp) && (DestParts.Val == 0)) {
+        else if ((SrcParts.Mode == eModeRegDisp) && (DestParts.Val == 0) && !DestParts.WasAbs) {
             SrcParts.Mode = eModeIReg;
             SrcParts.Cnt  = 0;
         }
